@@ -52,7 +52,7 @@ def shift_cursors(v, d):
     return v
 
 
-ADAPTORS = ("map", "skip", "rev", "enumerate")
+ADAPTORS = ("map", "skip", "rev", "enumerate", "peekable")
 
 
 def inner_cursor(v):
@@ -442,7 +442,19 @@ class LabelWorld(OracleWorld):
                 st.consulted = set()
                 return None
         if d is None:
-            raise InductionFailure("loop at bb%d of %s: the state changes from one round to the next but no position steps" % (target, fr.body.id))
+            # (not a verdict about the scan: the loop's state is not one this abstraction follows)
+            raise AnalysisError("loop at bb%d of %s: the state changes from one round to the next but no label position steps (a loop over something other than relative label positions)" % (target, fr.body.id))
+        if d == 0:
+            # the state changed although no position stepped (a buffered element of a Peekable was taken, a flag
+            # set on the first round): a preliminary round — compare from this arrival on
+            n = loops.get(("n",) + key, 0) + 1
+            if n <= 3:
+                loops[("n",) + key] = n
+                loops[key] = cur
+                loops[("facts",) + key] = dict(st.facts)
+                st.ext["loops"] = loops
+                st.consulted = set()
+                return None
         for l in changed:
             if shift_value(prev.get(l), d) != cur[l]:
                 raise InductionFailure("loop at bb%d of %s: `%s` is not the previous round's value shifted by %+d (the scan does not visit consecutive positions uniformly)" % (target, fr.body.id, fr.body.local_name(l), d))
